@@ -91,7 +91,31 @@ func c17Names(maxLen int) (chunks [][]string, total int) {
 			fam = append(fam, a[:p]+"."+a[p+1:])
 		}
 	}
+	// many labels with one defective label at every position
+	for k := 2; k <= 8; k++ {
+		for pos := 0; pos < k; pos++ {
+			for _, bad := range []string{"", "ab", "-bc", "ab-", "aBc", "a_c", "abc"} {
+				ls := make([]string, k)
+				for i := range ls {
+					ls[i] = "abc"
+				}
+				ls[pos] = bad
+				fam = append(fam, strings.Join(ls, "."))
+			}
+		}
+	}
 	fam = append(fam, "192.168.100.200", "111.222.333.444", "1.2.3.4", "127.000.000.001", "255.255.255.255", "256.256.256.256", "100.100.100", "100.100.100.100.100", "::1", "fe80::1", "2001:db8::1", "abc.def", "abc..def", ".abc", "abc.", "a-b", "a--b", "abc.d-f", "abc.-ef", "xn--abc", "aaa.bbb.ccc", "1234", "0000", "aaa/bbb")
+	{ // the families overlap: every name once
+		seen := map[string]bool{}
+		var u []string
+		for _, n := range fam {
+			if !seen[n] {
+				seen[n] = true
+				u = append(u, n)
+			}
+		}
+		fam = u
+	}
 	for i := 0; i < len(fam); i += 500 {
 		j := i + 500
 		if j > len(fam) {
